@@ -21,3 +21,4 @@ open Just.Props.C07
 #print axioms stepC_shape
 #print axioms shRun_shape
 #print axioms finish_shape
+#print axioms quote_channel_singular
